@@ -115,6 +115,10 @@ def to_sessions(recs, rng, targets=("engine", "pool"), chain=1, sample=None, btp
                     if any(b == "ok" for p in part for n, b in p["beh"] if n == ru["name"]):
                         tpls[ru["name"]] = "A"
                 calls = [to_call(p, rng, tpls) for p in part]
+                for c in calls:
+                    # now and then the very same call object (same argument slices) is issued twice
+                    if rng.random() < 0.12:
+                        c["rep"] = 1
                 if tgt == "pool":
                     for c in calls:
                         x = rng.randrange(3)
@@ -269,12 +273,17 @@ def self_test(run):
     i = next(i for i, e in enumerate(v) if e["ev"] == "start" and e["r"] == "r2")
     v[i - 1], v[i] = v[i], v[i - 1]          # r2 starts before r1 ended
     variants.append(("swapped", v))
+    ri = max(i for i, e in enumerate(evs) if e["ev"] == "return")
     v = [dict(e) for e in evs]
-    v[-1] = dict(v[-1], keys=[])              # result key dropped
+    v[ri] = dict(v[ri], keys=[])              # result key dropped
     variants.append(("dropped-key", v))
     v = [dict(e) for e in evs]
-    v[-1] = dict(v[-1], err=True)             # error flag flipped
+    v[ri] = dict(v[ri], err=True)             # error flag flipped
     variants.append(("flipped-err", v))
+    v = [dict(e) for e in evs]
+    fi = max(i for i, e in enumerate(evs) if e["ev"] == "frozen")
+    v[fi] = dict(v[fi], same=False)           # a handed-back result map changed afterwards
+    variants.append(("thawed", v))
     allp = os.path.join(run.scratch, "st-all.ndjson")
     with open(allp, "w") as f:
         for n, (name, v) in enumerate(variants):
@@ -290,7 +299,7 @@ def self_test(run):
     if 0 in rej:
         run.cov["binding_self_test"] = "skipped: the uncorrupted reference trace was rejected"
         return
-    if rej != [1, 2, 3]:
-        raise Infra("binding self-test failed: expected the three corrupted traces to be rejected "
+    if rej != [1, 2, 3, 4]:
+        raise Infra("binding self-test failed: expected the four corrupted traces to be rejected "
                     "and the good one accepted, got %s" % rej)
-    run.cov["binding_self_test"] = "good trace accepted; swapped start/end, dropped result key, flipped error flag rejected"
+    run.cov["binding_self_test"] = "good trace accepted; swapped start/end, dropped result key, flipped error flag, result map changed after its return rejected"
